@@ -130,6 +130,10 @@ func Load(configPath string) (*Config, error) {
 	if err := json.NewDecoder(configFile).Decode(&cfg.content); err != nil {
 		return nil, fmt.Errorf("failed to decode config file at %s: %w: %v", configPath, ErrInvalidConfigFormat, err)
 	}
+	if cfg.content == nil {
+		// the file holds the JSON value null: treat it as an empty config
+		cfg.content = make(map[string]json.RawMessage)
+	}
 
 	if credsStoreBytes, ok := cfg.content[configFieldCredentialsStore]; ok {
 		if err := json.Unmarshal(credsStoreBytes, &cfg.credentialsStore); err != nil {
